@@ -7,17 +7,27 @@ NOTE = ("floats treated as exact reals (A-REAL); int64 as unbounded ints; NumPy/
         "DESIGN.md section 3 (listed per run in evidence coverage.trusted_base); pyvc (AST interpreter + VC generator) and z3/cvc5 trusted")
 CLAIMS = {
  "C01": ("proof", "4.C01", "Every helper, reducer, the 6 Numba kernels, 6 CUDA device kernels + host wrappers and 4 of the 6 NumPy fallbacks are symbolically executed from /repo and proved, for all records/starts/windows/omega/L, equal to the property's own windowed-DFT definition (spec function Dft with exp(-i w n)); the two polynomial-detrend NumPy fallbacks are bounded-only (run-time contract check), the float rounding budget is sampled, both labelled in the evidence."),
- "C02": ("proof", "4.C02", "ltf_plan and lpsd_plan: loop invariants + per-bin postconditions (starts in bounds, strictly increasing, last ends at N, K=navg=len(D), L range, single-segment rule, nf>=1, termination variant) proved for every admissible configuration; vectorized_ltf/new_ltf: see evidence (known findings / bounded)."),
- "C03": ("proof", "4.C03", "r*L=fs, b=f/r=f*L/fs, f[0]=bmin*fs/N, stepping f[j+1]=f[j]+r[j], below Nyquist, bmin up to rounding of L: proved at an arbitrary bin for ltf_plan; lpsd_plan proved against ltf_plan's contract with bmin=1, Lmin=1."),
+ "C02": ("proof", "4.C02", "All four schedulers (ltf, lpsd, vectorized_ltf, new_ltf): loop invariants, block contracts and per-bin postconditions (starts in bounds, strictly increasing from 0, last segment ends at N, K=navg=len(D), max(1,Lmin)<=L<=N, single-segment rule, nf>=1, termination variant) proved for every admissible configuration; SpectrumAnalyzer.plan() proved against the schedulers' contracts: no validation branch can raise, the cached plan satisfies the same statements (also under a band filter)."),
+ "C03": ("proof", "4.C03", "r*L=fs, b=f/r=f*L/fs, f[0]=bmin*fs/N, stepping f[j+1]=f[j]+r[j], strictly increasing, below Nyquist proved at an arbitrary bin for all four schedulers and again for plan(); bmin up to the rounding of L proved for ltf/lpsd/new_ltf; for the vectorised scheduler the lookup-grid slack is a bounded run-time clause; lpsd_plan proved against ltf_plan's contract with bmin=1, Lmin=1."),
+ "C05": ("proof", "4.C05", "compute_single_bin and _lpsd_core (all order x mode x backend dispatch variants, Kaiser and callable windows): the kernel that runs is the one for (order, mode, backend), its arguments are the record, omega=2*pi*f/fs of this bin, this bin's starts and L, the configured window and the cached basis Q(L, order) (cache invariants), reported statistics are the kernel's results and the window sums; compute(): bin i's row goes to slot i of every result array and plan fields are handed over: proved. The kernels' own meaning is C01. End-to-end equality with an independent reference estimator is a bounded stand-in."),
  "C06": ("proof", "4.C06", "ENBW, Gxx/Gyy/Gxy normalisation and ps=psd*ENBW=2*XX/S12 proved for the real __getattr__ branches at an arbitrary bin; sinusoid calibration reduces to the window property (bounded, C12)."),
+ "C07": ("other", "4.C07", "Proved: Hxy = conj(Gxy)/Gxx on the real attribute code; XY is the kernel's mean of X conj(Y) with X the exp(-i w n) DFT on all three backends (C01 kernel posts), the dispatch picks the kernel of the selected backend and hands XY through _lpsd_core/compute unchanged - so the sign convention conj(X)Y/|X|^2 is identical on every backend. The relational clauses (y = g x gives H = g and coh = 1; delay gives phase -2 pi f d/fs) are bounded run-time checks only, so the property as a whole is not claimed as proof."),
+ "C08": ("other", "4.C08", "Proved: order -> kernel family dispatch, Q built for (L, order) by _build_Q (orthonormal-columns post relative to the assumed QR contract) and cached per (L, order), kernels subtract the projection on span(Q) before windowing (C01 kernel posts), order -1 uses the raw windowed segments. The relational clauses (adding a polynomial of degree <= p changes nothing, degree p+1 does) are bounded run-time checks only, so the property as a whole is not claimed as proof."),
  "C09": ("proof", "4.C09", "coh in [0,1], |Gxy|^2<=Gxx*Gyy, coh=1 for one segment, GyyCx+GyyRx=Gyy, GyySx=Gyy(1-coh) proved on the real attribute code under the result invariant (Cauchy-Schwarz is part of the invariant)."),
  "C10": ("proof", "4.C10", "each *_dev/*_error branch equals the textbook closed form; dev = estimate*error; mag <= rad <= pi/2*mag error; deg = 180/pi rad: proved with sqrt/arcsin as axiomatised uninterpreted functions. The Monte-Carlo clause is statistical: not decided."),
  "C11": ("proof", "4.C11", "M2 = population variance of per-segment products (reducers + every kernel), emp var = M2/navg, emp devs = 2/(fs*S2)*sqrt(M2/navg), None rules: proved."),
+ "C12": ("other", "4.C12", "What the speckit code contributes is proved: the Kaiser window handed to every kernel is np.kaiser(L+1, alpha*pi)[:-1] with the configured alpha (compute_single_bin/_lpsd_core call-site obligations). The side-lobe level of the Kaiser window itself (a statement about Bessel functions over a continuum of offsets) is not decidable by contracts here: bounded grid only, so the property as a whole is not claimed as proof."),
+ "C13": ("proof", "4.C13", "SpectrumAnalyzer.__init__ for the 1-D, 2xN, Nx2 and list layouts: the stored record equals the input with non-finite samples replaced by zero, channel/length rules, and the caller's array is never written (frame obligation over buffer identities with a contiguity model): proved. Finite results for degenerate records and layout independence end to end: bounded run-time checks."),
+ "C14": ("proof", "4.C14", "call-history independence: compute_single_bin/_lpsd_core/compute leave record, configuration and plan cache untouched (frame obligations), window/Q caches hold exactly the values a fresh computation produces (cache invariants), __getattr__ caches only the value it returns (C20); CUDA/Numba kernels write only their own output slot (C01 frame obligations). Thread-schedule independence of Numba prange is an assumed semantics (listed); access-order independence is additionally sampled (bounded)."),
+ "C15": ("other", "4.C15", "SISO path and the algebraic residual certificate (q=1..3) are proved; the two MISO functions (sympy solve / per-bin numpy.linalg.solve) are outside the interpreted subset and are checked at run time only (bounded), so the property as a whole is not claimed as proof."),
  "C16": ("proof", "4.C16", "lagrange_taps: for each halfp the real function is executed symbolically (loops unrolled) and every tap is proved equal to the textbook Lagrange weight, and the taps to sum to one, by exact polynomial identity testing over Fractions (quick: halfp in {1,2,3,4,5,7,8,16}; thorough: all 1..56); timeshift constant-shift path: integer/fraction split, edge padding and correlation give the end-held stencil for all n and all real shifts: proved. Time-varying path / DataFrame wrapper: bounded."),
  "C17": ("proof", "4.C17", "IIR cascade: each section realises the direct-form recurrence from the carried state and returns the final state; state hand-over of get_series (alpha/red), one seeded draw per request: proved; chunking invariance on a generator/seed/chunk grid is a bounded stand-in."),
  "C18": ("proof", "4.C18", "fftnoise Hermitian mirror / magnitude preservation / real DC and Nyquist for every length (odd and even) and white variance psd*fs: proved; the 1/f^alpha shape clause is not decided (bounded grid only)."),
  "C19": ("proof", "4.C19", "polynomial_detrend order 0 exact (mean removal, sum zero by an inductive lemma), orders 1..5 orthogonality relative to the assumed least-squares contract of np.polyfit; crop_data is the inclusive order-preserving selection; integral_rms^2 is the trapezoid over it (assumed cumulative_trapezoid contract): proved. Idempotence/Parseval: bounded."),
- "C20": ("proof", "4.C20", "every one of the 45 derived attributes x {auto, cross} equals its documented function of the base estimates at an arbitrary bin, None rules, unknown names raise AttributeError, cache/frame obligations: proved on the real __getattr__."),
+ "C20": ("proof", "4.C20", "every one of the 45 derived attributes x {auto, cross} equals its documented function of the base estimates at an arbitrary bin, None rules, unknown names raise AttributeError, cache/frame obligations, __getattr__ on a bare instance terminates with AttributeError (copy/pickle): proved on the real __getattr__; get_measurement / to_dataframe / copy / pickle round trips: bounded run-time checks."),
+}
+NA = {
+ "C04": "check under construction (monotone L/K via ghost replay of the loop body, log spacing, forced bin count); not yet claimed",
 }
 checks = []
 for p, (lvl, ref, text) in CLAIMS.items():
@@ -38,7 +48,7 @@ m = {
  "hooks": {"guard": "SPECKIT_VERIF", "enable": "no hooks are installed in /repo: contracts are sidecar files under /verif/contracts, read against /repo's working tree on every run", "baseline_off_cmd": "cd /repo && /venv/bin/python -m pytest -ra -q -p no:cacheprovider --timeout=900 --continue-on-collection-errors", "source_commits": [], "add_only": True},
  "engines": [{"name": "pyvc", "path": "pyvc/", "serves_properties": sorted(CLAIMS), "kind_free_text": "verification-condition generator: symbolic execution of the real Python AST from /repo against sidecar contracts (contracts/*.py), spec functions (specs/), obligations discharged by z3/cvc5; run-time contract harness (replay/harness.py) for replays and bounded stand-ins"}],
  "checks": checks,
- "not_applicable": [{"property_id": p, "reason": "check under construction in this round (contracts being written; see DESIGN.md section 4); not yet claimed"} for p in props if p not in CLAIMS],
+ "not_applicable": [{"property_id": p, "reason": NA[p]} for p in props if p not in CLAIMS],
  "notes": "contract-based deductive verification of the real code; see DESIGN.md. Fix commits in /repo: GyySx conjugate pairing, segment-count cap in ltf/lpsd, NumPy cross-spectral sign, red_noise empty request (known_findings.json, section 'fixed').",
 }
 json.dump(m, open(os.path.join(V, "MANIFEST.json"), "w"), indent=1)
